@@ -33,6 +33,7 @@ type workerInfo struct {
 	Contexts          []string       `json:"contexts"`
 	RelevantContexts  []string       `json:"relevant_contexts"`
 	DanglingTemplates []string       `json:"dangling_templates"`
+	RefKinds          map[string]any `json:"referred_type_kinds"`
 	Menus             map[string]int `json:"menus"`
 }
 
